@@ -137,9 +137,9 @@ CHECKS = {
     },
     "C16": {
         "level": "fault_enumeration",
-        "parts": [{"gen": "C16", "quick": 687, "thorough": 687, "exhaustive": True}],
+        "parts": [{"gen": "C16", "quick": 691, "thorough": 691, "exhaustive": True}],
         "exhaustive_claim": True,
-        "rule": "exhaustive over the documented names (687 cases, the seed is the case index): every cipher name (7 + the chacha20-ietf-poly1305 alias) x every server mode (tcp, udp, tcp_and_udp, quic, tcp_and_quic), "
+        "rule": "exhaustive over the documented names (691 cases, the seed is the case index): every cipher name (7 + the chacha20-ietf-poly1305 alias) x every server mode (tcp, udp, tcp_and_udp, quic, tcp_and_quic), "
                 "default modes, every client mode x protocol, every Shadowsocks-2022 key length 0..48 bytes as client password, server password and user-table key, and 26 undocumented cipher / protocol / mode strings "
                 "or missing ciphers on either side (for Shadowsocks entries and, the cipher names, for VMess and Trojan entries too); transport sections ssl, ws, ssl+ws and quic (incl. the quic / tcp_and_quic server modes with a QUIC endpoint in the registry and datagrams over quic); Shadowsocks-2022 key lists of 1-4 keys whose identity-header chain on stream and datagram is compared with the one the reference computes. Each case boots the real client and server main() with that JSON. Oracle: the TCP listeners and UDP sockets in the simulated registry equal the documented set for the mode, "
                 "a canary TCP flow and/or UDP exchange works over them, undocumented names and wrong-length keys leave the affected side not serving and its main() ended; never a panic.",
